@@ -122,6 +122,13 @@ CHECKS = {
         note="Mutation acceptance is not judged (may be another valid key); quick tier mutates 3 curves, thorough all 17.",
         design="5/C19",
     ),
+    "C20": dict(
+        category="model_checking",
+        technique="controlled-schedule monitors on the real code: sys.monitoring LINE-event preemption harness for shared points (A parked at each line, B runs a whole operation, results compared with sequential runs); stateless depth-first schedule enumeration with visited-state pruning of the real RWLock under a scheduler that owns every Lock operation; random line-granularity schedules; uncontrolled stress",
+        text="Points: for fresh generator objects (empty lazy table) and unscaled public points on SECP112r1/SECP128r1 (+NIST192p/256p thorough), thread A is parked at the LINE events of _maybe_precompute/scale/__mul__/mul_add/to_affine/... while thread B performs k*G, mul_add, signature verification, scale, to_affine, equality or a pickle round trip on the same object; both results and the object left behind must equal the sequential results. Lock: the real RWLock runs with a fake threading namespace; every interleaving of lock operations of 1R+1W, 2R, 2R+1W, 1R+2W, 1R+1W x2 (quick) and 2R+2W, 3R+1W, 3R+2W, x2 variants (thorough) is enumerated (state = thread progress, pending ops, lock owners, holder set, both switch counters read back from the object); the holder-set invariant is evaluated at every critical-section entry, deadlock = no enabled thread, two readers must be seen holding together, and everything must be released at the end.",
+        note="Bounded thread counts; source-line / lock-operation granularity; every explored execution is a run of the real code (traces_validated_against_impl = executions).",
+        design="5/C20",
+    ),
 }
 
 NOT_YET = "check not built yet in this session (see DESIGN.md section 5 for the planned monitor)"
